@@ -87,6 +87,9 @@ class BaseParser:
         self.addition_type = None
         self.name = get_obj_name(obj)
         self.is_local = is_local_var(obj)
+        # typing caches generic aliases, so one ForwardRef object can sit in declarations of unrelated
+        # modules and scopes that merely spell a reference the same way: never keep our evaluation in it
+        self.force_clear_refs = True
         with _forward_refs_lock:
             self.setup()
 
@@ -119,7 +122,7 @@ class BaseParser:
             annotation=annotation,
             forward_refs=self.forward_refs,
             global_vars=self.globals,
-            force_clear_refs=self.is_local,
+            force_clear_refs=self.force_clear_refs,
             bound=self.bound
         )
 
@@ -233,6 +236,8 @@ class BaseParser:
             for name in list(self.forward_refs):
                 ref, constraints = self.forward_refs[name]
                 try:
+                    # an evaluation found in the (shared) object may come from another declaration
+                    ref.__forward_evaluated__ = False
                     evaluate_forward_ref(ref, self.globals, local_vars)
                     if ref.__forward_evaluated__:
                         # evaluated successfully, pop
@@ -262,7 +267,7 @@ class BaseParser:
                                 constraints={"const": ref.__forward_value__},
                             )
                         resolved = True
-                        if self.is_local:
+                        if self.force_clear_refs:
                             clear_refs.append(ref)
                         resolved_names.append(name)
                 except Exception:
@@ -272,8 +277,8 @@ class BaseParser:
         finally:
             if resolved:
                 self.resolve_forward_types()
-            if self.is_local:
-                # ForwardRef in local vars is not cachable
+            if self.force_clear_refs:
+                # an evaluated ForwardRef is not cachable
                 # where typing is using a lru_cache
                 # we should clear
                 for ref in clear_refs:
